@@ -82,6 +82,10 @@ struct Cfg {
     t9: bool,
     t13: bool,
     t15: bool,
+    t17: bool,
+    t18: bool,
+    t19: bool,
+    let_ty: BTreeMap<String, String>, // local name -> type annotation to add (type inference needs it once ghost code mentions the local)
     keep_derive: Vec<String>,
     deref_assign_rhs: bool,
     self_rename: Option<(String, String)>,
@@ -286,6 +290,12 @@ impl<'a, 'ast> Visit<'ast> for V<'a> {
                 }
             }
             if ids.len() >= 2 && ids[0] == "crate" {
+                // an explicit substitution for the whole path wins (e.g. the strict type named from inside the lax module)
+                if let Some(sub) = self.cfg.subst.get(&ids.join("::")).cloned() {
+                    let last_id_hi = rng(&tp.path.segments.last().unwrap().ident).1;
+                    self.ed.replace(lo, last_id_hi, sub, "T1");
+                    return;
+                }
                 // crate::module::Type<..>: the generated file has a flat namespace
                 let last_lo = rng(tp.path.segments.last().unwrap()).0;
                 self.ed.replace(lo, last_lo, String::new(), "path-prefix-dropped");
@@ -309,6 +319,14 @@ impl<'a, 'ast> Visit<'ast> for V<'a> {
             let (lo, hi) = rng(s);
             self.ed.replace(lo, hi, String::new(), "use-dropped");
             return;
+        }
+        if let Stmt::Local(l) = s {
+            if let Pat::Ident(pi) = &l.pat {
+                if let Some(ty) = self.cfg.let_ty.get(&pi.ident.to_string()).cloned() {
+                    let at = rng(&l.pat).1;
+                    self.ed.insert(at, format!(": {}", ty), "let-type");
+                }
+            }
         }
         if let Stmt::Macro(sm) = s {
             let (lo, hi) = rng(s);
@@ -424,6 +442,62 @@ impl<'a, 'ast> Visit<'ast> for V<'a> {
             Expr::MethodCall(m) if self.cfg.t9 && m.method == "collect" && m.args.is_empty() && is_map_closure(&m.receiver) => {
                 // T9:  RECV.map(|P| BODY).collect()  ->  { let mut v = Vec::new(); for P in RECV { v.push(BODY); } v }
                 if let Expr::MethodCall(mm) = &*m.receiver {
+                    // the mapped function is a closure literal |P| BODY, or a path F (e.g. a tuple-struct constructor): |x| F(x)
+                    let pb: Option<(String, String)> = match &mm.args[0] {
+                        Expr::Closure(cl) => Some((self.ed.r(&cl.inputs[0]), self.ed.r(&*cl.body))),
+                        Expr::Path(pth) => {
+                            let v = format!("vx_a{}", self.loop_ctr + 1);
+                            Some((v.clone(), format!("{}({})", self.ed.r(pth), v)))
+                        }
+                        _ => None,
+                    };
+                    if let Some((p, body)) = pb {
+                        let recv = self.ed.r(&*mm.receiver);
+                        self.loop_ctr += 1;
+                        let idx = self.loop_ctr;
+                        let ann = self.cfg.loops.get(&idx).cloned();
+                        let (itn, inv) = loop_annotation(&ann);
+                        let getf = |k: &str| ann.as_ref().and_then(|a| a.get(k)).and_then(|v| v.as_str()).unwrap_or("").to_string();
+                        let (pre, post) = (getf("body_pre"), getf("body_post"));
+                        let ety = getf("elem_ty");
+                        let newv = if ety.is_empty() { "Vec::new()".to_string() } else { format!("Vec::<{}>::new()", ety) };
+                        let s = format!(
+                            "{{ let mut vx_v{i} = {newv};\n    for {p} in {itn}{recv}{inv}\n    {{\n        {pre}\n        vx_v{i}.push({body});\n        {post}\n    }}\n    vx_v{i} }}",
+                            i = idx, newv = newv, p = p, itn = itn, recv = recv, inv = inv, body = body, pre = pre, post = post
+                        );
+                        self.ed.replace(lo, hi, s, "T9");
+                    }
+                }
+            }
+            Expr::MethodCall(m) if self.cfg.t9 && m.method == "extend" && m.args.len() == 1 && is_map_closure(&m.args[0]) => {
+                // T9(c):  V.extend(RECV.map(|P| BODY))  ->  for P in RECV { V.push(BODY); }
+                // (what Vec::extend does with an iterator: push every item, in order)
+                if let Expr::MethodCall(mm) = &m.args[0] {
+                    let pb: Option<(String, String)> = match &mm.args[0] {
+                        Expr::Closure(cl) => Some((self.ed.r(&cl.inputs[0]), self.ed.r(&*cl.body))),
+                        _ => None,
+                    };
+                    if let Some((p, body)) = pb {
+                        let v = self.ed.r(&*m.receiver);
+                        let recv = self.ed.r(&*mm.receiver);
+                        self.loop_ctr += 1;
+                        let idx = self.loop_ctr;
+                        let ann = self.cfg.loops.get(&idx).cloned();
+                        let (itn, inv) = loop_annotation(&ann);
+                        let getf = |k: &str| ann.as_ref().and_then(|a| a.get(k)).and_then(|v| v.as_str()).unwrap_or("").to_string();
+                        let (pre, post) = (getf("body_pre"), getf("body_post"));
+                        let s = format!(
+                            "{{ for {p} in {itn}{recv}{inv}\n    {{\n        {pre}\n        {v}.push({body});\n        {post}\n    }} }}",
+                            p = p, itn = itn, recv = recv, inv = inv, pre = pre, v = v, body = body, post = post
+                        );
+                        self.ed.replace(lo, hi, s, "T9");
+                    }
+                }
+            }
+            Expr::MethodCall(m) if self.cfg.t19 && m.method == "collect" && m.args.is_empty() && is_filter_map_closure(&m.receiver) => {
+                // T19:  RECV.filter_map(|P| BODY).collect()  ->
+                //   { let mut v = Vec::new(); for P in RECV { match BODY { Some(y) => { v.push(y); } None => {} } } v }
+                if let Expr::MethodCall(mm) = &*m.receiver {
                     if let Expr::Closure(cl) = &mm.args[0] {
                         let recv = self.ed.r(&*mm.receiver);
                         let p = self.ed.r(&cl.inputs[0]);
@@ -434,13 +508,29 @@ impl<'a, 'ast> Visit<'ast> for V<'a> {
                         let (itn, inv) = loop_annotation(&ann);
                         let getf = |k: &str| ann.as_ref().and_then(|a| a.get(k)).and_then(|v| v.as_str()).unwrap_or("").to_string();
                         let (pre, post) = (getf("body_pre"), getf("body_post"));
+                        let ety = getf("elem_ty");
+                        let newv = if ety.is_empty() { "Vec::new()".to_string() } else { format!("Vec::<{}>::new()", ety) };
                         let s = format!(
-                            "{{ let mut vx_v{i} = Vec::new();\n    for {p} in {itn}{recv}{inv}\n    {{\n        {pre}\n        vx_v{i}.push({body});\n        {post}\n    }}\n    vx_v{i} }}",
-                            i = idx, p = p, itn = itn, recv = recv, inv = inv, body = body, pre = pre, post = post
+                            "{{ let mut vx_v{i} = {newv};\n    for {p} in {itn}{recv}{inv}\n    {{\n        {pre}\n        match {body} {{ Some(vx_y{i}) => {{ vx_v{i}.push(vx_y{i}); }} None => {{}} }}\n        {post}\n    }}\n    vx_v{i} }}",
+                            i = idx, newv = newv, p = p, itn = itn, recv = recv, inv = inv, body = body, pre = pre, post = post
                         );
-                        self.ed.replace(lo, hi, s, "T9");
+                        self.ed.replace(lo, hi, s, "T19");
                     }
                 }
+            }
+            Expr::MethodCall(m) if self.cfg.t19 && m.method == "map" && m.args.len() == 1 && matches!(&m.args[0], Expr::Path(_)) && !is_iterish(&m.receiver) => {
+                // T19(b):  OPT.map(F)  with F a path (function / tuple-struct constructor)  ->  match OPT { Some(x) => Some(F(x)), None => None }
+                let recv = self.ed.r(&*m.receiver);
+                let fun = self.ed.r(&m.args[0]);
+                self.closure_ctr += 0;
+                let k = lo;
+                self.ed.replace(lo, hi, format!("(match {} {{ Some(vx_o{}) => Some({}(vx_o{})), None => None }})", recv, k, fun, k), "T19");
+            }
+            Expr::MethodCall(m) if self.cfg.t18 && m.method == "drain" && m.args.len() == 1 && matches!(&m.args[0], Expr::Range(r) if r.start.is_none() && r.end.is_none()) => {
+                // T18:  V.drain(..)  ->  std::mem::take(&mut V).into_iter()
+                // (a full-range drain yields every element in order and leaves V empty whether or not it is consumed)
+                let recv = self.ed.r(&*m.receiver);
+                self.ed.replace(lo, hi, format!("std::mem::take(&mut {}).into_iter()", recv), "T18");
             }
             Expr::MethodCall(m) if self.cfg.t15 && m.method == "for_each" && m.args.len() == 1 && is_iter_mut(&m.receiver) && matches!(&m.args[0], Expr::Closure(_)) => {
                 // T15(b):  RECV.iter_mut().for_each(|x| BODY)  ->
@@ -534,6 +624,17 @@ impl<'a, 'ast> Visit<'ast> for V<'a> {
                     self.ed.replace(lo, hi, format!("{}({}, {})", f, l, r), "T3");
                 }
             }
+            Expr::Struct(es) => {
+                // struct literal with a crate-qualified path: explicit whole-path substitution, as for types
+                let ids = path_idents(&es.path);
+                if ids.len() >= 2 && ids[0] == "crate" {
+                    if let Some(sub) = self.cfg.subst.get(&ids.join("::")).cloned() {
+                        let (plo, _phi) = rng(&es.path);
+                        let last_id_hi = rng(&es.path.segments.last().unwrap().ident).1;
+                        self.ed.replace(plo, last_id_hi, sub, "T1");
+                    }
+                }
+            }
             Expr::Macro(m) => {
                 self.handle_macro(&m.mac, lo, hi, false);
             }
@@ -570,6 +671,32 @@ impl<'a, 'ast> Visit<'ast> for V<'a> {
                     pre_inserts: vec![],
                     iter_lo: rng(&*f.expr).0,
                 };
+                // T17:  for PAT in X.into_iter().zip(Y.into_iter()) { BODY }  ->  two explicit iterators and a loop that
+                //       calls next() on the first, then on the second, and stops at the first None (what Zip does);
+                //       lets the library's own iterators, whose next() is under contract, carry the proof
+                if self.cfg.t17 {
+                    if let Expr::MethodCall(zm) = &*f.expr {
+                        if zm.method == "zip" && zm.args.len() == 1 && is_into_iter(&zm.receiver) && is_into_iter(&zm.args[0]) {
+                            if let (Expr::MethodCall(ma), Expr::MethodCall(mb)) = (&*zm.receiver, &zm.args[0]) {
+                                let xa = self.ed.r(&*ma.receiver);
+                                let xb = self.ed.r(&*mb.receiver);
+                                let pat_s = self.ed.r(&*f.pat);
+                                let body = self.ed.r(&f.body);
+                                let ann = self.cfg.loops.get(&my_loop).cloned();
+                                let (_itn, inv) = loop_annotation(&ann);
+                                let getf = |k: &str| ann.as_ref().and_then(|a| a.get(k)).and_then(|v| v.as_str()).unwrap_or("").to_string();
+                                let (pre, post, brk) = (getf("body_pre"), getf("body_post"), getf("break_pre"));
+                                let n = my_loop;
+                                let s = format!(
+                                    "{{ let mut vx_za{n} = {xa}.into_iter(); let mut vx_zb{n} = {xb}.into_iter();\n    loop{inv}\n    {{\n        match vx_za{n}.next() {{\n            None => {{ {brk}\n                break; }}\n            Some(vx_xa{n}) => {{ match vx_zb{n}.next() {{\n                None => {{ {brk}\n                    break; }}\n                Some(vx_xb{n}) => {{ let {pat} = (vx_xa{n}, vx_xb{n});\n                    {pre}\n                    {body}\n                    {post} }}\n            }} }}\n        }}\n    }} }}",
+                                    n = n, xa = xa, xb = xb, inv = inv, brk = brk, pat = pat_s, pre = pre, body = body, post = post
+                                );
+                                self.ed.replace(lo, hi, s, "T17");
+                                return;
+                            }
+                        }
+                    }
+                }
                 // T15(a):  for PAT in &mut X { BODY }  ->  let mut j = 0; while j < X.len() INV { let PAT = &mut X[j]; BODY j += 1; }
                 let mut is_t15 = false;
                 if self.cfg.t15 {
@@ -653,6 +780,30 @@ impl<'a, 'ast> Visit<'ast> for V<'a> {
     }
 }
 
+fn is_filter_map_closure(e: &Expr) -> bool {
+    if let Expr::MethodCall(m) = e {
+        if m.method == "filter_map" && m.args.len() == 1 {
+            if let Expr::Closure(cl) = &m.args[0] {
+                return cl.inputs.len() == 1;
+            }
+        }
+    }
+    false
+}
+
+/// receiver that is syntactically an iterator pipeline (so `.map(F)` on it is Iterator::map, not Option::map)
+fn is_iterish(e: &Expr) -> bool {
+    match e {
+        Expr::MethodCall(m) => {
+            let n = m.method.to_string();
+            matches!(n.as_str(), "iter" | "into_iter" | "iter_mut" | "zip" | "enumerate" | "map" | "filter" | "filter_map" | "chain" | "cloned" | "copied" | "rev" | "drain" | "skip" | "take")
+        }
+        Expr::Range(_) => true,
+        Expr::Paren(p) => is_iterish(&p.expr),
+        _ => false,
+    }
+}
+
 fn is_iter_mut(e: &Expr) -> bool {
     if let Expr::MethodCall(m) = e {
         return m.method == "iter_mut" && m.args.is_empty();
@@ -672,6 +823,9 @@ fn is_map_closure(e: &Expr) -> bool {
         if m.method == "map" && m.args.len() == 1 {
             if let Expr::Closure(cl) = &m.args[0] {
                 return cl.inputs.len() == 1;
+            }
+            if let Expr::Path(_) = &m.args[0] {
+                return true;
             }
         }
     }
@@ -855,6 +1009,14 @@ fn cfg_from(req: &Value) -> Cfg {
         c.t9 = r.get("t9").and_then(|v| v.as_bool()).unwrap_or(false);
         c.t13 = r.get("t13").and_then(|v| v.as_bool()).unwrap_or(false);
         c.t15 = r.get("t15").and_then(|v| v.as_bool()).unwrap_or(false);
+        c.t17 = r.get("t17").and_then(|v| v.as_bool()).unwrap_or(false);
+        c.t18 = r.get("t18").and_then(|v| v.as_bool()).unwrap_or(false);
+        c.t19 = r.get("t19").and_then(|v| v.as_bool()).unwrap_or(false);
+        if let Some(m) = r.get("let_ty").and_then(|v| v.as_object()) {
+            for (k, v) in m {
+                c.let_ty.insert(k.clone(), v.as_str().unwrap_or("").to_string());
+            }
+        }
         if let Some(a) = r.get("keep_derive").and_then(|v| v.as_array()) {
             c.keep_derive = a.iter().filter_map(|x| x.as_str().map(|s| s.to_string())).collect();
         }
@@ -964,10 +1126,20 @@ fn render_fn(src: &str, sig: &Signature, block: Option<&Block>, req: &Value, who
     // T10 (parameters): a pattern parameter becomes a named parameter + `let <pattern> = <name>;`
     let sig_pat = ann.get("sig_pat").and_then(|x| x.as_object()).cloned().unwrap_or_default();
     let mut param_lets: Vec<String> = vec![];
+    let mut extra_lets: Vec<String> = vec![];
     let mut inputs: Vec<String> = vec![];
     for i in sig.inputs.iter() {
         let s = match (i, &v.cfg.self_rename) {
-            (FnArg::Receiver(_), Some((nm, ty))) => format!("{}: {}", nm, ty),
+            (FnArg::Receiver(rc), Some((nm, ty))) => {
+                if rc.reference.is_none() && rc.mutability.is_some() {
+                    // `mut self` (by value, locally mutable): Verus has no `mut self`; the receiver becomes `<name>_in`
+                    // and the body starts with `let mut <name> = <name>_in;`
+                    extra_lets.push(format!("let mut {} = {}_in;", nm, nm));
+                    format!("{}_in: {}", nm, ty)
+                } else {
+                    format!("{}: {}", nm, ty)
+                }
+            }
             (FnArg::Typed(pt), _) => {
                 let ptxt = v.ed.r(&*pt.pat);
                 let key: String = ptxt.split_whitespace().collect::<Vec<_>>().join(" ");
@@ -1025,7 +1197,7 @@ fn render_fn(src: &str, sig: &Signature, block: Option<&Block>, req: &Value, who
     // ---- body
     match (block, body_mode) {
         (Some(b), "keep") => {
-            for l in param_lets.iter() {
+            for l in extra_lets.iter().chain(param_lets.iter()) {
                 v.ed.insert(rng(&b.brace_token.span.open()).1, format!(" {}", l), "");
             }
             // loops: iterator naming, invariants, inserted statements
@@ -1080,6 +1252,25 @@ fn render_fn(src: &str, sig: &Signature, block: Option<&Block>, req: &Value, who
                             _ => close,
                         };
                         v.ed.insert(at, wrapped, "proof-hint");
+                    } else if anchor.starts_with("before#") || anchor.starts_with("after#") {
+                        // before#K:text / after#K:text -- the K-th (in source order) innermost statement containing text
+                        let after = anchor.starts_with("after#");
+                        let rest = &anchor[if after { 6 } else { 7 }..];
+                        let (kstr, t) = match rest.split_once(':') {
+                            Some(x) => x,
+                            None => return Err(format!("bad proof anchor `{}`", anchor)),
+                        };
+                        let k: usize = kstr.parse().unwrap_or(0);
+                        let mut ms: Vec<(usize, usize)> = v.stmts.iter().filter(|(lo, hi)| src[*lo..*hi].contains(t)).cloned().collect();
+                        let all = ms.clone();
+                        ms.retain(|(lo, hi)| !all.iter().any(|(l2, h2)| (l2, h2) != (lo, hi) && l2 >= lo && h2 <= hi));
+                        ms.sort();
+                        ms.dedup();
+                        if k == 0 || k > ms.len() {
+                            return Err(format!("lost anchor: occurrence {} of a statement containing `{}` not found in `{}`", k, t, name));
+                        }
+                        let (lo, hi) = ms[k - 1];
+                        v.ed.insert(if after { hi } else { lo }, wrapped, "proof-hint");
                     } else if let Some(t) = anchor.strip_prefix("before:").or(anchor.strip_prefix("after:")) {
                         let after = anchor.starts_with("after:");
                         // innermost statement whose source text contains t
@@ -1145,6 +1336,7 @@ fn render_typedef(src: &str, items: &[Item], req: &Value) -> std::result::Result
             match it {
                 Item::Struct(s) if s.ident == name => return Some(it),
                 Item::Enum(e) if e.ident == name => return Some(it),
+                Item::Type(t) if t.ident == name => return Some(it),
                 Item::Mod(m) => {
                     if let Some((_, inner)) = &m.content {
                         if let Some(x) = find(inner, name) {
@@ -1163,6 +1355,7 @@ fn render_typedef(src: &str, items: &[Item], req: &Value) -> std::result::Result
     let (generics, attrs): (&Generics, &Vec<Attribute>) = match it {
         Item::Struct(s) => (&s.generics, &s.attrs),
         Item::Enum(e) => (&e.generics, &e.attrs),
+        Item::Type(t) => (&t.generics, &t.attrs),
         _ => unreachable!(),
     };
     v.visit_item(it);
